@@ -101,6 +101,12 @@ func DialContext(ctx context.Context, addr, mycall, password string) (net.Conn, 
 	}
 
 	// Log in to telnet server
+	// The login dialogue must not outlive the dial deadline.
+	if deadline, ok := ctx.Deadline(); ok {
+		conn.SetDeadline(deadline)
+		defer conn.SetDeadline(time.Time{})
+	}
+
 	reader := bufio.NewReader(conn)
 L:
 	for {
